@@ -251,15 +251,45 @@ def fmt_rule(ctx: Ctx) -> None:
     u_expr, s_expr = e_u.args[0], e_s.args[0]
     bin_str, hex_str = arg(e_bin, 0, "string"), arg(e_hex, 0, "string")
     ucanon = fl.canon(u_expr)
-    ok = isinstance(bin_str, ast.Call) and isinstance(bin_str.func, ast.Attribute) and bin_str.func.attr == "format" \
-        and len(bin_str.args) == 1 and fl.canon(bin_str.args[0]) == ucanon
+
+    def fmt_parts(e: ast.AST):
+        """(formatted value, spec as a list of AST pieces to fold and join) for `"{:SPEC}".format(v)` or f"{v:SPEC}"."""
+        if isinstance(e, ast.Call) and isinstance(e.func, ast.Attribute) and e.func.attr == "format" and len(e.args) == 1 and not e.keywords:
+            return e.args[0], ("template", e.func.value)
+        if isinstance(e, ast.JoinedStr) and len(e.values) == 1 and isinstance(e.values[0], ast.FormattedValue) and e.values[0].conversion == -1 \
+                and e.values[0].format_spec is not None:
+            return e.values[0].value, ("spec", e.values[0].format_spec)
+        return None, None
+
+    def fold_spec(spec, folder) -> str | None:
+        """The format spec as text (`0{n}b`), from either form."""
+        kind, node = spec
+        try:
+            if kind == "template":
+                t = folder.fold(node)
+                return t[2:-1] if isinstance(t, str) and t.startswith("{:") and t.endswith("}") else None
+            out = ""
+            for v in node.values:
+                if isinstance(v, ast.Constant):
+                    out += str(v.value)
+                elif isinstance(v, ast.FormattedValue) and v.format_spec is None:
+                    x = folder.fold(v.value)
+                    out += str(x)
+                else:
+                    return None
+            return out
+        except Unknown:
+            return None
+
+    bval, bspec = fmt_parts(bin_str)
+    ok = bval is not None and fl.canon(bval) == ucanon
     r.check(ok, "bin_string", f.loc(), "binary digits are not rendered from the masked value")
     ok_hex = is_call(hex_str, "to_hex_str") and fl.canon(arg(hex_str, 0, hx.params[0])) == ucanon and fl.canon(arg(hex_str, 1, hx.params[1])) == "P1"
     r.check(ok_hex, "hex_string", f.loc(), "hex digits are not rendered from the masked value at width n")
     hfl = normal_flow(m, hx)
     hres = merged_result(hfl)
-    ok_h = len(hres) == 1 and isinstance(hres[0], ast.Call) and isinstance(hres[0].func, ast.Attribute) and hres[0].func.attr == "format" \
-        and len(hres[0].args) == 1 and hfl.canon(hres[0].args[0]) == "P0"
+    hval, hspec = fmt_parts(hres[0]) if len(hres) == 1 else (None, None)
+    ok_h = hval is not None and hfl.canon(hval) == "P0"
     r.check(ok_h, "to_hex_str|return", hx.loc(), "to_hex_str does not format its number")
     for n in WIDTHS:
         run = AbsRun(m, f, {num: Form.var("x")}, {nn: n})
@@ -288,16 +318,10 @@ def fmt_rule(ctx: Ctx) -> None:
         r.check(oks, f"n={n}|sign", f.loc(), f"for n={n} the signed value is {sdesc}; it must be the n-bit two's complement reading "
                 f"`u - 2^{n} if u >= 2^{n - 1} else u`")
         fold = Folder(m, mod, None, {nn: Val(n)})
-        try:
-            bf = fold.fold(bin_str.func.value) if isinstance(bin_str, ast.Call) and isinstance(bin_str.func, ast.Attribute) else None
-        except Unknown:
-            bf = None
-        r.check(bf == "{:0" + str(n) + "b}", f"n={n}|bin-width", f.loc(), f"binary format for n={n} is {bf!r}")
-        try:
-            hf = Folder(m, mod, None, {hx.params[1]: Val(n)}).fold(hres[0].func.value) if ok_h else None
-        except Unknown:
-            hf = None
-        r.check(hf == "{:0" + str(n // 4) + "X}", f"n={n}|hex-width", hx.loc(), f"hex format for n={n} is {hf!r}, expected {n // 4} upper-case digits")
+        bf = fold_spec(bspec, fold) if bspec is not None else None
+        r.check(bf == "0" + str(n) + "b", f"n={n}|bin-width", f.loc(), f"binary format spec for n={n} is {bf!r}")
+        hf = fold_spec(hspec, Folder(m, mod, None, {hx.params[1]: Val(n)})) if ok_h and hspec is not None else None
+        r.check(hf == "0" + str(n // 4) + "X", f"n={n}|hex-width", hx.loc(), f"hex format spec for n={n} is {hf!r}, expected {n // 4} upper-case digits")
     # grouping goes right to left
     gtxt = " ".join(ast.unparse(gp.node).split())
     ok = "reversed_string = string[::-1]" in gtxt and "return grouped_string[::-1]" in gtxt and \
